@@ -1103,7 +1103,14 @@ func (dc *DirectConnection) drainResults() error {
 		}
 
 		if dc.isEOFPacket(data) {
+			// further results of the same statement (a procedure with several selects) follow this one
+			// and nobody is going to read them: the connection cannot be used again
+			more := dc.capability&mysql.ClientProtocol41 > 0 && len(data) >= 5 &&
+				binary.LittleEndian.Uint16(data[3:])&mysql.ServerMoreResultsExists > 0
 			dc.conn.RecycleReadPacket()
+			if more {
+				return fmt.Errorf("more results of the statement are pending")
+			}
 			return nil
 		} else if data[0] == mysql.ErrHeader {
 			err := dc.handleErrorPacket(data)
